@@ -30,7 +30,7 @@ def check_prog(ctx, r, prog, n_values):
     rng = ctx.rng("c01", prog["name"])
     canon = Canon(r, prog)
     pn = prog["name"]
-    all_names = sorted({h["name"] for h in handlers(prog) if h["kind"] != "reply"})
+    all_names = sorted({T.wire_name(h["name"]) for h in handlers(prog) if h["kind"] != "reply"} | {h["name"] for h in handlers(prog) if h["kind"] != "reply"})
     wit = {}  # (part, kind, name) -> a valid document
     for h in handlers(prog):
         if h["kind"] == "reply":
@@ -41,6 +41,7 @@ def check_prog(ctx, r, prog, n_values):
             if ct is None:
                 raise RuntimeError(f"drawn value does not decode: {h} {texts}")
             pred = doc_text(h, ct)
+            ext = T.wire_name(h["name"]) != h["name"] and h["kind"] in KINDS_ENUM
             o = r.call({"prog": pn, "op": "build:" + h["hid"], "args": texts})
             ctx.ev()
             if "panic" in o or "ok" not in o.get("res", {}):
@@ -49,6 +50,16 @@ def check_prog(ctx, r, prog, n_values):
                 continue
             b = o["res"]["ok"]
             key = (prog["name"], h["hid"])
+            if ext:
+                # outside the C01 name domain the wire name is not pinned: only the body shape, the single key
+                # and the round trip are (self-consistency of the name is C03/C05)
+                try:
+                    k0 = list(json.loads(b["literal"]).keys())
+                except ValueError:
+                    k0 = []
+                if len(k0) == 1:
+                    pred = "{" + dumps(k0[0]) + ":" + body_text(h, ct) + "}"
+                ctx.count("extended_name_handlers")
             if b["literal"] != pred:
                 ctx.violate(f"shape:{h['kind']}", f"{pn} {h['hid']}: serialises to {b['literal'][:160]} but the signature predicts {pred[:160]}",
                             {"prog": pn, "handler": h, "args": texts, "predicted": pred, "observed": b["literal"]})
@@ -70,7 +81,7 @@ def check_prog(ctx, r, prog, n_values):
                     ctx.violate(f"reencode:{h['kind']}", f"{pn} {h['hid']}: re-encoding the parsed message differs",
                                 {"prog": pn, "handler": h, "doc": pred, "reencoded": pr["ok"]["json"]})
             if h["kind"] in KINDS_ENUM:
-                wit[(h["part"], h["kind"], h["name"])] = (pred, body_text(h, ct))
+                wit[(h["part"], h["kind"], T.wire_name(h["name"]))] = (pred, body_text(h, ct))
             if h["args"]:
                 ctx.nontrivial([pn, h["hid"], pred])
             if it == 0:
@@ -85,15 +96,21 @@ def check_prog(ctx, r, prog, n_values):
             cands = set(all_names)
             for n in all_names[:6]:
                 cands.update(name_mutants(rng, n))
+            cands.update(["__phantom", "_phantom", "_Phantom", "phantom"])
             for n in sorted(cands):
                 if n in own:
                     doc = wit[(part["id"], kind, n)][0]
                 else:
                     # a body that some message of this program accepts, so only the name decides
-                    bodies = [v[1] for (p2, k2, n2), v in wit.items() if n2 == n] or ["{}"]
+                    bodies = [v[1] for (p2, k2, n2), v in wit.items() if n2 == n] or ["{}", "null", "[]", "[null]"]
                     doc = "{" + dumps(n) + ":" + rng.choice(bodies) + "}"
                 cmds.append({"prog": pn, "op": f"parse:{part['id']}:{kind}", "doc": doc})
                 meta.append((part["id"], kind, n, n in own, doc))
+                if "hantom" in n:
+                    for bdy in ("null", "[]", "{}", "[null]", "\"x\""):
+                        doc2 = "{" + dumps(n) + ":" + bdy + "}"
+                        cmds.append({"prog": pn, "op": f"parse:{part['id']}:{kind}", "doc": doc2})
+                        meta.append((part["id"], kind, n, False, doc2))
             # exactly one key
             if own:
                 n0 = sorted(own)[0]
@@ -128,5 +145,9 @@ def run(ctx):
         for p in progs:
             check_prog(ctx, r, p, n_values)
     fam.each_bin(per_bin)
+    # generic message types carry a helper variant that must never be a message name
+    gen = ctx.family("generic")
+    gen.each_bin(lambda b, progs, r: [check_prog(ctx, r, p, max(2, n_values // 3)) for p in progs])
+    ctx.cov["generic_programs"] = len(gen.progs)
     ctx.cov["programs"] = len(fam.progs)
     ctx.cov["handlers"] = sum(1 for p in fam.progs for _ in handlers(p))
